@@ -57,7 +57,7 @@ def dyn_contracts(u, ID, lw, be, ety):
 
     def add(f, name, pre, post, assigns=(), mode="S", props=("C13",), ghosts=GH, **kw):
         # heavy for SAT with multi-byte length prefixes (minutes): 1-byte prefixes on every change, the others in the thorough tier (best effort)
-        heavy = kw.get("stubs") and (("input iterators" in name) or (lw > 1 and "[content]" in name and any(x in name for x in ("insert(pos", "erase(first,last)"))))
+        heavy = kw.get("stubs") and (("input iterators" in name and "range<=1" not in kw.get("kind", "")) or (lw > 1 and "[content]" in name and any(x in name for x in ("insert(pos", "erase(first,last)"))))
         if heavy:
             if not THOROUGH[0]:
                 return
@@ -288,6 +288,10 @@ def dyn_contracts(u, ID, lw, be, ety):
     inb = [ASSUME("sbv_k < sbv_n && sbv_j < sbv_n && sbv_k + %d < sbv_n && sbv_j + %d < sbv_n" % (lw, lw)), ASSUME("sbv_m >= 1 && sbv_r < sbv_m && (sbv_k < sbv_p || sbv_k >= sbv_p + sbv_m || sbv_r == sbv_k - sbv_p)"),
            ASSUME("sbv_mt0 == %d + sbv_k - sbv_m + 1 && sbv_mt1 == sbv_mt0 + 1 && sbv_mt2 == sbv_mt0 + 2" % lw)]
     add(f, "insert(pos,first,last) input iterators [content]", pre + inb, post_c, assigns=frame(vw), ghosts=GR, props={"C13", "C10"}, stubs=STUBS, kind=kindb, unwind=4)
+    if lw == 1:
+        # every-change variant: a one-element range (one loop iteration), everything else symbolic
+        k1 = "bounded(range<=1 element; buffer, size, position, contents symbolic)"
+        add(f, "insert(pos,first,last) input iterators, one element [content]", pre + [ASSUME("sbv_m <= 1")] + inb, post_c, assigns=frame(vw), ghosts=GR, props={"C13", "C10"}, stubs=STUBS, kind=k1, unwind=3, timeout=150)
 
     # assign(first,last) / assign(ilist) / assign_range(r): copy, then set the length (documented precondition: the range fits the buffer)
     for nm, label, kind in (("assign_range_it", "assign(first,last)", "ptr"), ("assign_ilist", "assign(ilist)", "ilist"), ("assign_range", "assign_range(r)", "range")):
